@@ -18,7 +18,9 @@ def main():
                    env={"VERIF_SEED": "11", "OMP_WAIT_POLICY": "passive", "GOMP_SPINCOUNT": "0", "OMP_DYNAMIC": "false"})
     recs = lib.read_ndjson(good)
     ok, r, at = lib.validate_trace("Trace_Threads", good, heap="3g")
-    base = lib.unexplained(r)
+    # (the dedicated 'thread count raised after set_up' run is the known finding C18-threads-raised)
+    KNOWN = {"C18-threads-raised"}
+    base = [x for x in lib.unexplained(r) if x[1] not in KNOWN]
     print("good trace: %d lines, accepted=%s, unexplained=%s" % (len(recs), ok, base))
     if not ok or base:
         return 1
@@ -56,8 +58,25 @@ def main():
         return f
 
     # (a) lazy tables
-    i_leave = find(lambda i, x: x["e"] == "lazy.leave" and nonref(i))
-    i_enter2 = find(lambda i, x: x["e"] == "lazy.enter" and x["t"] != recs[i_leave]["t"] and CritSame(x["id"], recs[i_leave]["id"]), i_leave)
+    # a thread that had read the unset flag BEFORE another thread left the critical section and entered after it:
+    # move its enter to just before that leave
+    i_leave = i_enter2 = None
+    for i, x in enumerate(recs):
+        if x["e"] != "lazy.leave" or not nonref(i):
+            continue
+        for j in range(i + 1, min(i + 40, len(recs))):
+            y = recs[j]
+            if y["e"] == "Run":
+                break
+            if y["e"] == "lazy.enter" and y["t"] != x["t"] and CritSame(y["id"], x["id"]):
+                if any(z["e"] == "lazy.read" and z["t"] == y["t"] and z["id"] == y["id"] and z["v"] == 0 for z in recs[max(0, i - 200):i]) \
+                        and not any(z["e"] == "lazy.read" and z["t"] == y["t"] and z["id"] == y["id"] for z in recs[i:j]):
+                    i_leave, i_enter2 = i, j
+                break
+        if i_leave is not None:
+            break
+    if i_leave is None:
+        raise LookupError("no contended critical section in the recorded trace")
     cases.append(("second thread enters before the first leaves", move(i_enter2, i_leave), "mutual-exclusion"))
     i_flag = find(lambda i, x: x["e"] == "lazy.flag" and recs[i - 1]["e"] == "lazy.fill.end" and any(
         y["e"] == "lazy.enter" and y["t"] == x["t"] and y["id"] == x["id"] for y in recs[max(0, i - 400):i]) and run_of(i)["wl"] == "lazy")
@@ -146,7 +165,7 @@ def main():
         p = os.path.join(work, "c.ndjson")
         lib.write_ndjson(p, m)
         ok, r, at = lib.validate_trace("Trace_Threads", p, heap="3g")
-        bad = lib.unexplained(r)
+        bad = [x for x in lib.unexplained(r) if x[1] not in KNOWN]
         if expect == "ACCEPT":
             good_ = ok and not bad
         else:
